@@ -386,7 +386,7 @@ class MLIRLexer(Lexer[MLIRTokenKind]):
         if current_char == '"':
             return self._lex_string_literal(start_pos)
 
-        if current_char.isnumeric():
+        if current_char in "0123456789":
             return self._lex_number(start_pos)
 
         raise ParseError(
